@@ -323,7 +323,7 @@ def collected(sc):
                     ft = tm.get(final(f["type"]))
                     if ft is None:
                         continue
-                    if ft["kind"] == "o":
+                    if ft["kind"] in ("o", "i"):      # interfaces too since fix 0e87b8b
                         stack.append(ft["name"])
                     elif ft["kind"] == "u":
                         stack.extend(ft["members"])
